@@ -211,7 +211,12 @@ def gen_random_case(rng):
     if rng.random() < 0.3:
         for _ in range(rng.choice([1, 1, 2])):
             s = rng.choice(surfaces)
-            k = rng.choice(["set_reflecting", "set_white", "del_periodic", "set_periodic", "set_transform", "del_transform", "set_const"])
+            kinds = ["set_reflecting", "set_white", "del_periodic", "set_periodic", "set_transform", "del_transform", "set_const"]
+            if s["per"] is not None:
+                kinds += ["del_periodic"] * 6  # deleting a link that exists: the surface becomes mergeable
+            if s["tr"] is not None:
+                kinds += ["del_transform"] * 4 + ["set_transform"] * 2
+            k = rng.choice(kinds)
             if k in ("set_reflecting", "set_white"):
                 edits.append([k, s["n"], rng.random() < 0.6])
             elif k in ("del_periodic", "del_transform"):
